@@ -405,6 +405,11 @@ class HUndecided(Exception):
     pass
 
 
+class HNeedSplit(Exception):
+    """A test compares the block count with a constant that `at least one block` does not decide: the caller re-runs the case
+    split further into `exactly one block` / `two or more`."""
+
+
 class BytesV:
     def __init__(self, kind):
         self.kind = kind      # 'key' | 'head' (key[:nblocks*B]) | 'tail' (key[nblocks*B:])
@@ -448,7 +453,7 @@ class HInterp:
             x = nf(t)
         except (AnalysisError, TypeError, IndexError, KeyError):
             return None
-        r, hb = self.case
+        r, hb = self.case[0], self.case[1]
         x = self._subst_case(x)
         try:
             x = nf(to_raw(x))
@@ -459,7 +464,7 @@ class HInterp:
         return None
 
     def _subst_case(self, x):
-        r, hb = self.case
+        r, hb = self.case[0], self.case[1]
         if not isinstance(x, tuple) or not x:
             return x
         if _is_residue(x, self.B):
@@ -654,7 +659,8 @@ class HInterp:
             if va is not None and vb is not None:
                 return {ast.Eq: va == vb, ast.NotEq: va != vb, ast.Lt: va < vb, ast.LtE: va <= vb, ast.Gt: va > vb, ast.GtE: va >= vb}.get(type(o))
             # block count against a constant, knowing only that it is >= 1
-            r, hb = self.case
+            r, hb = self.case[0], self.case[1]
+            sub = self.case[2] if len(self.case) > 2 else None
             for x, vx, vy, flip in ((a, va, vb, False), (b, vb, va, True)):
                 try:
                     isnb = not isinstance(x, (BytesV, BlocksV)) and _is_nblocks(nf(x), self.B)
@@ -667,8 +673,19 @@ class HInterp:
                         ot = {ast.Lt: ast.Gt, ast.Gt: ast.Lt, ast.LtE: ast.GtE, ast.GtE: ast.LtE}.get(ot, ot)
                     if vy <= 0:
                         return {ast.Gt: True, ast.GtE: True, ast.NotEq: True, ast.Eq: False, ast.Lt: False, ast.LtE: False}.get(ot)
-                    if vy == 1:
-                        return {ast.GtE: True, ast.Lt: False}.get(ot)
+                    if vy == 1 and ot in (ast.GtE, ast.Lt):
+                        return ot is ast.GtE
+                    table = {ast.Eq: lambda n: n == vy, ast.NotEq: lambda n: n != vy, ast.Lt: lambda n: n < vy, ast.LtE: lambda n: n <= vy,
+                             ast.Gt: lambda n: n > vy, ast.GtE: lambda n: n >= vy}
+                    if ot not in table:
+                        return None
+                    if sub is None:
+                        raise HNeedSplit(unparse(t, 60))
+                    if sub == "one":
+                        return table[ot](1)
+                    # two or more blocks: decided when the answer is the same for 2 and for every larger count
+                    vals = {table[ot](n) for n in range(2, max(vy, 2) + 3)}
+                    return vals.pop() if len(vals) == 1 else None
             return None
         if isinstance(t, (ast.Name, ast.Call, ast.BinOp, ast.Subscript)):
             try:
